@@ -958,6 +958,18 @@ def directed():
                   {'op': 'fill', 't': 1, 'solvent': liquid, 'q': q(10, 'm', 'L')},           # var 2: nothing to add
                   {'op': 'fill', 't': 1, 'solvent': liquid, 'q': q(10, 'm', 'L')},
                   {'op': 'uses', 'v': 1}, {'op': 'fill', 't': 4, 'solvent': liquid, 'q': q(10, 'm', 'L')}])
+    # a container drained completely (every entry of the source goes to zero) into a container holding the same substances, then into
+    # one that is too small (the call raises after the amounts were computed), then used again: the caller's source is never touched
+    progs.append([{'op': 'newc', 'name': 1, 'max': None, 'init': [(liquid, q(10, 'm', 'L'))]},                                  # var 0
+                  {'op': 'newc', 'name': 2, 'max': None, 'init': [(liquid, q(40, 'm', 'L')), (solid, q(100, 'm', 'g'))]},       # var 1
+                  {'op': 'newc', 'name': 3, 'max': q(5, 'm', 'L'), 'init': []},                                                 # var 2
+                  {'op': 'transfer', 's': 0, 'd': 1, 'q': q(10, 'm', 'L')},                                                     # vars 3, 4
+                  {'op': 'transfer', 's': 0, 'd': 2, 'q': q(10, 'm', 'L')},                                                     # raises: exceeds 5 mL
+                  {'op': 'transfer', 's': 0, 'd': 1, 'q': q(1, 'm', 'L')},
+                  {'op': 'newp', 'name': 4, 'rows': 1, 'cols': 2, 'max': q(20, 'm', 'L')},                                      # var 7 (after 5, 6)
+                  {'op': 'slice', 'p': 7, 'r': {'rect': [[0], [0]]}},                                                           # var 8
+                  {'op': 'transfer', 's': 0, 'd': 8, 'q': q(10, 'm', 'L')},
+                  {'op': 'transfer', 's': 0, 'd': 1, 'q': q(10, 'm', 'L')}])
     return [{'subs': subs, 'ops': p} for p in progs]
 
 
